@@ -32,10 +32,18 @@ RULE = (
     "at the time of the call (focus+d, its negative spelling, middle+d, len+d); a container is built with "
     "the initial focus given to its constructor (absent, any index in or out of range, a child widget, a "
     "foreign widget: a constructor that returns must leave a list satisfying the focus invariant) and its "
-    "focus is moved as contents.focus = i, focus_position = i or the legacy set_focus(i). Every case is "
+    "focus is moved as contents.focus = i, focus_position = i or the legacy set_focus(i); legacy: the other "
+    "monitored lists a container hands out (Pile.widget_list / item_types, Columns.widget_list / column_types / "
+    "box_columns, GridFlow.cells): exhaustive enumeration of every such list x 0..3 [4 thorough] children x "
+    "every focus x every single list operation with every argument (index -5..5, the same slice / count / "
+    "keyword domains as single), and Hypothesis op sequences (<=20 ops, 0..7 children, the list read once or "
+    "again before every call, the container's focus moved between calls), compared with a built-in list "
+    "(contents, errors, result, modified callback); after every call the container's contents satisfy the "
+    "focus invariant and hold the widgets the widget list holds. Every case is "
     "passed through JSON before use, so generated and replayed cases are the same values. Non-trivial: the "
     "operation's slice touches the focus cell, has a non-unit or negative step, or is empty/reversed "
-    "(single); a sequence with >=3 content-changing ops of which one is a slice op (seq)."
+    "(single); a sequence with >=3 content-changing ops of which one is a slice op (seq, legacy sequences); a "
+    "content-changing op on a container that has children (legacy single ops)."
 )
 ASSUMPTIONS = [
     "CPython's built-in list is the reference for contents and exception types (list.sort is stable, also "
@@ -47,6 +55,11 @@ ASSUMPTIONS = [
     "focus that designates no child (IndexError / ValueError), nothing is asserted then",
     "container focus spellings: contents.focus = i is ignored on an empty list (documented); focus_position = i "
     "and set_focus(i) raise IndexError for every invalid index (documented)",
+    "the containers' backwards-compatible list views are monitored lists used for container contents in the sense "
+    "of the statement: the list clauses (contents, errors, result, modified callback) apply to them, the focus "
+    "clauses to the container's contents behind them; how (type, amount) and box-column lists longer or shorter "
+    "than the children map onto the children is not asserted; new (type, amount) entries are valid old or new "
+    "type names with non-negative amounts, nothing is rendered",
 ]
 
 
@@ -68,10 +81,17 @@ class Item:
 
 
 def _sort_value(x):
-    """integer sort value of an item: Item.v, or the number shown by a container child (widget, options)"""
+    """integer sort value of an item: Item.v, the number shown by a container child (widget, options) or by a
+    widget, an int itself, the amount of a legacy (type, amount) options pair (None counts as 0)"""
     if isinstance(x, Item):
         return x.v
-    return int(x[0].text)
+    if isinstance(x, int):
+        return x
+    if isinstance(x, urwid.Widget):
+        return int(x.text)
+    if isinstance(x[0], urwid.Widget):
+        return int(x[0].text)
+    return int(x[1] or 0)
 
 
 def apply_op(lst, op, new_item):
@@ -519,7 +539,127 @@ def _check_seq_container(case):
             raise Violation("focus-none-iff-empty", f"empty {cls} reports a focus widget")
 
 
-SUBS = {"single": check_single, "seq": check_seq}
+# ---------------------------------------------------------------------------------------------
+# the monitored lists a container hands out beside .contents (backwards-compatible views, still supported)
+
+# container -> {attribute: kind of item}.  "widget": the child widgets; "type": (type, amount) pairs, one per
+# child; "index": the indexes of the box columns
+LEGACY = {
+    "PILE": {"widget_list": "widget", "item_types": "type"},
+    "COLS": {"widget_list": "widget", "column_types": "type", "box_columns": "index"},
+    "GRID": {"cells": "widget"},
+}
+LEGACY_LISTS = [(c, a) for c, attrs in LEGACY.items() for a in attrs]
+# (type, amount) pairs in the old and the new spelling of the type names
+_LEGACY_TYPES = [("weight", 1), ("flow", None), ("pack", None), ("weight", 3), ("fixed", 2), ("given", 4), ("weight", 0)]
+_EMPTY_MARK = "[container empty before the call]"
+
+
+def _mk_legacy_container(cls, widgets, box_mask):
+    """children with mixed options (default, pack, weight 2), so that the (type, amount) views are not uniform"""
+    if cls == "GRID":
+        return urwid.GridFlow(widgets, 6, 1, 0, "left")
+    spec = [w if i % 3 == 0 else ("pack", w) if i % 3 == 1 else ("weight", 2, w) for i, w in enumerate(widgets)]
+    if cls == "PILE":
+        return urwid.Pile(spec)
+    return urwid.Columns(spec, box_columns=[i for i in range(len(widgets)) if box_mask >> i & 1])
+
+
+def check_legacy(case):
+    """case: {"cls": PILE|COLS|GRID, "attr": name of the list property, "n": children, "focus": index|None,
+    "box": bit mask of the box columns (COLS), "refetch": bool, "ops": [...]}.
+    The list is read from the container once (refetch false) or again before every op, as callers write
+    ``pile.widget_list.append(w)``; ["setfocus", i] moves the container's focus between the list calls."""
+    case = json.loads(json.dumps(case))
+    cls, attr, n, ops = case["cls"], case["attr"], case["n"], case["ops"]
+    kind = LEGACY[cls][attr]
+    with warnings.catch_warnings(record=True) as caught:
+        warnings.simplefilter("always")
+        warnings.simplefilter("ignore", DeprecationWarning)  # the views say "use .contents" on every access
+        _check_legacy(case, cls, attr, kind, n, ops)
+    if caught:
+        raise Discard()  # a container complaining about its children: mis-built case
+
+
+def _check_legacy(case, cls, attr, kind, n, ops):
+    widgets = [urwid.Text(str(i)) for i in range(n)]
+    cont = _mk_legacy_container(cls, widgets, case.get("box") or 0)
+    if _initial_focus(case) is not None:
+        cont.focus_position = _initial_focus(case)
+    counter = itertools.count(100)
+    log = []
+
+    def fetch():
+        ml = getattr(cont, attr)
+        inner = ml._modified  # the container's own callback: keep it, and log the calls
+
+        def modified():
+            log.append(("modified", None))
+            inner()
+
+        ml.set_modified_callback(modified)
+        return ml
+
+    def held():
+        return [w for w, _ in cont.contents]
+
+    real = fetch()
+    model = list(real)
+    if kind == "widget" and (len(model) != n or any(a is not b for a, b in zip(model, widgets))):
+        raise Violation("container-holds-list", f"{cls}.{attr} of {n} children reads {_Short(model)}")
+    first = True
+    for op in ops:
+        if op[0] == "setfocus":
+            if cont.contents and isinstance(op[1], int):
+                cont.focus_position = op[1] % len(cont.contents)
+            continue
+        if op[0] == "sort" and kind != "index" and (len(op) < 3 or op[2] is None):
+            continue  # widgets have no order of their own, (type, None) pairs not always: sort needs key=
+        if case.get("refetch") and not first:
+            real = fetch()
+            again = list(real)
+            if kind == "widget" and (len(again) != len(model) or any(a is not b for a, b in zip(again, model))):
+                raise Violation("container-holds-list", f"{cls}.{attr} read again gives {_Short(again)}, the list held {_Short(model)}")
+            model = again
+        first = False
+        op = resolve_op(op, len(model), cont.contents.focus)
+        fresh = {}
+        base = next(counter) * 10
+
+        def new_item(k, fresh=fresh, base=base):
+            if k not in fresh:
+                if kind == "widget":
+                    fresh[k] = urwid.Text(str(base + k))
+                elif kind == "type":
+                    fresh[k] = tuple(_LEGACY_TYPES[(base // 10 + k) % len(_LEGACY_TYPES)])
+                else:
+                    fresh[k] = (base // 10 + 3 * k) % 9  # any int: indexes of no column are ignored
+            return fresh[k]
+
+        empty_before = not cont.contents
+        try:
+            _compare_step(real, model, op, new_item, log, False, None, has_focus_cb=False)
+        except Violation as v:
+            if empty_before and v.clause == "same-errors":
+                raise Violation(v.clause, f"{cls}.{attr} {v.message} {_EMPTY_MARK}") from v
+            raise Violation(v.clause, f"{cls}.{attr} {v.message}") from v
+        # the container after the call: its focus-tracking contents satisfy the focus invariant, and hold the
+        # widgets the list holds
+        f = cont.contents.focus
+        if not cont.contents:
+            if f is not None or cont.focus is not None:
+                raise Violation("focus-none-iff-empty", f"{cls} emptied through {attr} ({op}) reports focus {f!r}")
+        elif not isinstance(f, int) or not 0 <= f < len(cont.contents):
+            raise Violation("focus-in-range", f"{cls}.{attr} {op}: contents.focus is {f!r} with {len(cont.contents)} children")
+        elif cont.focus is not cont.contents[f][0]:
+            raise Violation("focus-is-child", f"{cls}.focus is not contents[focus_position][0] after {attr} {op}")
+        if kind == "widget":
+            now = held()
+            if len(now) != len(model) or any(a is not b for a, b in zip(now, model)):
+                raise Violation("container-holds-list", f"{cls}.{attr} {op}: the list holds {_Short(model)}, the {cls} {_Short(now)}")
+
+
+SUBS = {"single": check_single, "seq": check_seq, "legacy": check_legacy}
 
 
 # ---------------------------------------------------------------------------------------------
@@ -669,6 +809,100 @@ _seq_long = st.fixed_dictionaries(
 _seq_case = st.integers(0, 7).flatmap(lambda k: _seq_long if k == 7 else _seq_small)
 
 
+# --- the containers' other monitored lists
+
+IDX_L = [None, *range(-5, 6)]
+
+
+def legacy_single_ops():
+    """every single list operation with every argument, on the index range that suits lists of up to 4 items"""
+    for i in range(-5, 6):
+        yield ["get", i]
+        yield ["set", i]
+        yield ["del", i]
+        yield ["insert", i]
+        yield ["pop", i]
+    yield ["pop", None]
+    for i in [None, 0, 1, 2, 3]:
+        yield ["remove", i]
+    for k in range(0, 4):
+        yield ["extend", k]
+        yield ["iadd", k]
+    for k in range(-1, 4):
+        yield ["imul", k]
+    yield ["append"]
+    yield ["reverse"]
+    for rev in (None, 0, 1):
+        for keymod in (None, 1, 2, 3):
+            if rev is None and keymod is None:
+                continue
+            yield ["sort", rev, keymod]
+    yield ["clear"]
+    for a in IDX_L:
+        for b in IDX_L:
+            for c in STEPS:
+                yield ["delslice", a, b, c]
+                for k in range(0, 4):
+                    yield ["setslice", a, b, c, k]
+
+
+def legacy_single_cases(max_n):
+    """every list a container hands out x every number of children 0..max_n x every focus x every single op
+    (the box-column list: for no, every, the odd and the even columns flagged)"""
+    ops = list(legacy_single_ops())
+    for cls, attr in LEGACY_LISTS:
+        for n in range(0, max_n + 1):
+            full = (1 << n) - 1
+            masks = sorted({0, full, 0b0101 & full, 0b1010 & full}) if attr == "box_columns" else [0b0101 & full]
+            for fi in (range(n) if n else [None]):
+                for box in masks:
+                    for op in ops:
+                        yield {"cls": cls, "attr": attr, "n": n, "focus": fi, "box": box, "refetch": False, "ops": [op]}
+
+
+def _legacy_single_nontrivial(case):
+    return case["n"] > 0 and case["ops"][0][0] != "get"
+
+
+def _legacy_single_classes(case):
+    out = [f"legacy:{case['cls']}.{case['attr']}", f"legacy-single:{case['ops'][0][0]}"]
+    if case["n"]:
+        probe = list(range(case["n"]))  # what a list of that many items becomes
+        try:
+            apply_op(probe, case["ops"][0], lambda k: 0)
+        except Exception:  # noqa: BLE001
+            out.append("legacy-single:list-raises")
+        else:
+            if not probe:
+                out.append("legacy-single:list-becomes-empty")
+    else:
+        out.append("legacy-single:empty-container")
+    return out
+
+
+_legacy_seq = st.fixed_dictionaries(
+    {
+        "la": st.sampled_from(LEGACY_LISTS),
+        "n": st.sampled_from([0, 1, 1, 2, 2, 3, 3, 4, 5, 6, 7]),
+        "focus": st.one_of(st.none(), st.integers(0, 6)),
+        "box": st.integers(0, 127),
+        "refetch": st.booleans(),
+        "ops": st.lists(
+            _op_strategy(st.one_of(st.integers(-9, 9), st.integers(-9, 9), st.integers(-9, 9), _rel)),
+            min_size=1,
+            max_size=20,
+        ),
+    }
+).map(lambda d: {"cls": d["la"][0], "attr": d["la"][1], **{k: v for k, v in d.items() if k != "la"}})
+
+
+def _legacy_seq_classes(case):
+    out = [f"legacy:{case['cls']}.{case['attr']}", "legacy-seq:" + ("list-read-before-every-call" if case["refetch"] else "list-read-once")]
+    if any(o[0] == "setfocus" for o in case["ops"]):
+        out.append("legacy-seq:focus-moved-between-calls")
+    return out
+
+
 def _initial_focus(case):
     """the "focus" field of a seq case as an index (None: leave the constructor's choice)"""
     n, f = case["n"], case.get("focus")
@@ -732,14 +966,35 @@ def shard(ctx):
     ctx.sweep("single", single_cases(max_n), nontrivial=is_nontrivial_single, classify=_single_classes,
               exhaustive_name=f"single ops, size<= {max_n}")
     if ctx.failure is None:
+        max_l = ctx.scale(3, 4)
+        ctx.sweep("legacy", legacy_single_cases(max_l), nontrivial=_legacy_single_nontrivial,
+                  classify=_legacy_single_classes, exhaustive_name=f"single ops on the containers' other lists, children<= {max_l}")
+    if ctx.failure is None:
         sizes = ctx.scale((300, 1025), (300, 1025, 4099))
         ctx.sweep("single", big_single_cases(sizes), nontrivial=is_nontrivial_single, classify=_big_single_classes,
                   exhaustive_name=f"single ops at landmark positions, sizes {sizes}")
     if ctx.failure is None:
         ctx.given("seq", _seq_case, ctx.scale(1500, 20000), nontrivial=_seq_nontrivial, classify=_seq_classes)
+    if ctx.failure is None:
+        ctx.given("legacy", _legacy_seq, ctx.scale(400, 5000), nontrivial=_seq_nontrivial, classify=_legacy_seq_classes)
 
 
 # ---------------------------------------------------------------------------------------------
 # known findings (active only if listed in known_findings.json with status "known")
 
-KNOWN = {}
+
+
+def _known_legacy_empty_container(sub, case, v):
+    """a container without children: the setter behind widget_list / item_types / column_types / cells reads
+    focus_position (documented to raise IndexError when empty) before it stores the new contents"""
+    return (
+        sub == "legacy"
+        and case["attr"] != "box_columns"
+        and v.clause == "same-errors"
+        and _EMPTY_MARK in v.message
+        and "No focus_position" in v.message
+        and "list accepts" in v.message
+    )
+
+
+KNOWN = {"C16-legacy-list-empty-container": _known_legacy_empty_container}
